@@ -55,13 +55,21 @@ T9 == Tex(NmD, 16, 16, A8, 9)
 \* 256 and, where it fits exactly, ends the name.
 NameBoundaries == {32, 64, 128, 256}
 MbWidth(c) == IF c = "ctpk" THEN 2 ELSE 3
-RECURSIVE NameFrom(_, _, _)
-NameFrom(pos, len, m) ==
-  IF pos >= len THEN <<>>
-  ELSE IF len - pos >= m /\ ((pos + 1) \in NameBoundaries \/ len - pos = m)
-       THEN <<34920>> \o NameFrom(pos + m, len, m)
-       ELSE <<(IF pos % 9 = 8 THEN 47 ELSE 97 + (pos % 26))>> \o NameFrom(pos + 1, len, m)
-LName(c, len) == NameFrom(0, len, MbWidth(c))
+\* byte offsets at which a multi-byte character starts: one byte before each boundary, and the
+\* last m bytes of the name when that does not cut another one
+MbStarts(len, m) ==
+  LET bs == { b - 1 : b \in { q \in NameBoundaries : q - 1 + m <= len } }
+  IN bs \cup (IF len >= m /\ \A st \in bs : (len - m >= st + m \/ len - m = st) THEN {len - m} ELSE {})
+\* (not recursive: a 700-deep recursion overflows the stack of the thread in which TLC
+\* pre-evaluates constants, the constant is then silently not cached)
+NameOf(len, m) ==
+  LET mb     == MbStarts(len, m)
+      starts == { pos \in 0..(len - 1) : ~\E st \in mb : st < pos /\ pos < st + m }
+      order  == SetToSortSeq(starts, <)
+  IN Tup([j \in 1..Len(order) |->
+            IF order[j] \in mb THEN 34920
+            ELSE IF order[j] % 9 = 8 THEN 47 ELSE 97 + (order[j] % 26)])
+LName(c, len) == NameOf(len, MbWidth(c))
 NameLens == {0, 1, 31, 32, 33, 63, 64, 65, 127, 128, 129, 255, 256, 257, 700}
 ASSUME \A c \in {"ctpk", "bch", "cgfx"} : \A len \in NameLens : Len(NameBytes(c, LName(c, len))) = len
 
